@@ -30,4 +30,8 @@ pub trait Control: Send {
     fn pacing_rate(&self) -> Option<usize>;
 
     fn remove_from_bytes_in_flight(&mut self, packets: &mut dyn Iterator<Item = &SentPacket>);
+
+    /// verification hook: (bytes_in_flight, ssthresh, congestion_recovery_start_time)
+    #[cfg(genmeta_gm_quic_verif)]
+    fn verif_state(&self) -> (usize, usize, Option<Instant>);
 }
